@@ -97,6 +97,48 @@ def api_probes(ctx):
                                         "observed": [repr(after)], "expected": [repr(before)]})
             import copy as _c
             nfit.FP_DEFAULT.update(_c.deepcopy(DEFAULTS_AT_IMPORT))
+        # objects the library RETURNS (preprocessing details, POC details) are edited in place by the caller
+        # (unit conversion for plotting): neither the curve's columns nor the caller's own arrays may change
+        def scribble(o, depth=0):
+            n_ = 0
+            if isinstance(o, np.ndarray):
+                if o.flags.writeable and o.dtype.kind == "f" and o.size:
+                    o *= 1e9
+                    o += 1.0
+                    n_ += 1
+            elif isinstance(o, dict) and depth < 6:
+                for v_ in o.values():
+                    n_ += scribble(v_, depth + 1)
+            elif isinstance(o, (list, tuple)) and depth < 6:
+                for v_ in o:
+                    n_ += scribble(v_, depth + 1)
+            return n_
+        for pm in [f.identifier for f in poc.POC_METHODS]:
+            steps_ = ["compute_tip_position", "correct_force_offset", "correct_tip_offset"]
+            opts_ = {"correct_tip_offset": {"method": pm}}
+            with warnings.catch_warnings():
+                warnings.simplefilter("ignore")
+                a_ = histlib.fresh(cid)
+                det = a_.apply_preprocessing(copy.deepcopy(steps_), copy.deepcopy(opts_), ret_details=True)
+                cols0 = {c: histlib.digest(a_[c]) for c in a_.columns}
+                nscr = scribble(det)
+                cols1 = {c: histlib.digest(a_[c]) for c in a_.columns}
+                fcall = np.array(a_["force"], copy=True)
+                f0_ = fcall.copy()
+                _, det2 = poc.compute_poc(fcall, method=pm, ret_details=True)
+                nscr += scribble(det2)
+            ctx.case({"probe": "returned-details-edited", "curve": cid, "method": pm, "arrays_edited": nscr},
+                     nontrivial=f"probe:details:{pm}:{cid}", bucket="stream=api-probes")
+            if cols0 != cols1:
+                ctx.violation("returned-details-alias-columns", "editing the arrays in the details returned by "
+                              f"apply_preprocessing(..., ret_details=True) ({pm}) changed the columns "
+                              f"{[c for c in cols0 if cols0[c] != cols1[c]]} of the curve",
+                              {"history": [f"det = apply_preprocessing({steps_}, {opts_}, ret_details=True)",
+                                           "every float array inside det: a *= 1e9; a += 1"], "curve": cid})
+            if not np.array_equal(fcall, f0_):
+                ctx.violation("returned-details-alias-argument", "editing the arrays in the details returned by "
+                              f"compute_poc(force, {pm!r}, ret_details=True) changed the caller's force array",
+                              {"input": {"method": pm, "curve": cid}})
         # numerical functions must not modify their array arguments
         f = np.array(idnt["force"], copy=True)
         for m in [f.identifier for f in poc.POC_METHODS]:
